@@ -3,6 +3,7 @@ package main
 // Evaluation of contract expressions to SMT terms over a symbolic state.
 
 import (
+	"golang.org/x/tools/go/ssa"
 	"fmt"
 	"go/constant"
 	"go/types"
@@ -75,7 +76,14 @@ func (x *Exec) specLoad(env *Env, p *Pointer) Val {
 	if p.Rows {
 		term = sx("select", sx("select", h, p.Root), p.Idx)
 	} else if p.Enc {
-		term = x.nameCell(env.st, p, x.encCell(p, func(key, sort string) string { return x.heapFor(env, key, sort) }), env.bound)
+		bnd := map[string]bool{}
+		for b := range env.bound {
+			bnd[b] = true
+			if v, ok := env.vars[b]; ok {
+				bnd[v.T] = true
+			}
+		}
+		term = x.nameCell(env.st, p, x.encCell(p, func(key, sort string) string { return x.heapFor(env, key, sort) }), bnd)
 	} else {
 		term = sx("select", h, p.Root)
 	}
@@ -811,6 +819,16 @@ func (x *Exec) evalCall(e *Expr, env *Env) Val {
 		}
 		op := map[string]string{"fpeq": "fp.eq", "fplt": "fp.lt", "fpgt": "fp.gt", "fple": "fp.leq", "fpge": "fp.geq"}[e.Name]
 		return specBool(sx(op, fpTerm(as[0], w), fpTerm(as[1], w)))
+	case "egerr":
+		// egerr(g): the first error returned by a worker of errgroup g so far (nil if none)
+		h := x.heapFor(env, "G_egerr", "(Array Int Err)")
+		if e.Args[0].Op == "ident" && env.fr != nil {
+			if root, ok := x.addrOfLocal(env.fr, e.Args[0].Name); ok {
+				return Val{K: KErr, T: sx("select", h, root), Typ: types.Universe.Lookup("error").Type()}
+			}
+		}
+		a := args()[0]
+		return Val{K: KErr, T: sx("select", h, x.termOf(a)), Typ: types.Universe.Lookup("error").Type()}
 	case "cbran":
 		// cbran(f): the callback parameter f was called on this path
 		if env.st.ghost["cbran:"+e.Args[0].Name] == "true" {
@@ -974,4 +992,20 @@ func containsSym(s, sym string) bool {
 		}
 		i = j + 1
 	}
+}
+
+// addrOfLocal: the root of the heap object holding the named local variable (a variable whose address is taken).
+func (x *Exec) addrOfLocal(fr *Frame, name string) (string, bool) {
+	for _, b := range fr.fn.Blocks {
+		for _, in := range b.Instrs {
+			dr, ok := in.(*ssa.DebugRef)
+			if !ok || !dr.IsAddr || dr.Object() == nil || dr.Object().Name() != name {
+				continue
+			}
+			if v, ok := fr.vals[dr.X]; ok && v.K == KPtr && v.Ptr != nil && v.Ptr.Root != "" {
+				return v.Ptr.Root, true
+			}
+		}
+	}
+	return "", false
 }
